@@ -10,7 +10,10 @@ queryMultiAdapter on the proxy = the factory lookup() selects for that specifica
 from .. import core, runner
 from . import worldcommon
 
-THEOREMS = ["ZI.World.C19_mro_remainder", "ZI.World.C19_cache_hit_same", "ZI.RO.C03_ro_eq_c3"]
+THEOREMS = ["ZI.World.C19_mro_remainder", "ZI.World.C19_cache_hit_same", "ZI.RO.C03_ro_eq_c3",
+            # over all declaration histories with super queries (ZI/Props/C19Hist.lean, on ZI.Classes2)
+            "ZI.C19.C19_super", "ZI.C19.C19_super_after", "ZI.C19.C19_super_excludes", "ZI.C19.C19_remainder_split", "ZI.C19.C19_stable",
+            "ZI.C19.C19_reuse_iff", "ZI.C19.sim19_step", "ZI.C19.sim19_run", "ZI.C19.changed_reaches_iff"]
 PROFILE = dict(scen_cold_super=0.1, scen_layout_super=0.06, weights=[3, 0.5, 1, 0.3, 1, 5, 2, 0.2, 0.1], nregs=(1, 2), extra=1, provq=3, nclasses=(3, 6), superobj=0.75,
                keyweights=(0.25, 0.1, 0.2, 0.45), provkinds=(0.0, 0.1, 0.15, 0.75), arity=[1, 1, 2])
 
@@ -49,8 +52,9 @@ class _Null:
 
 def check(tier):
     chk = core.Check("C19", tier)
-    chk.obligations(THEOREMS, ["C19_super / C19_stable as invariants over all World histories (the model's superSpec is compared with the real code and judged "
-                               "by the MRO-remainder oracle on every query)"])
+    chk.obligations(THEOREMS, ["C19_super / C19_stable for histories with interface re-basing, class specifications among the declared ones, and registrations keyed on "
+                               "proxy specifications (the World model's superSpec is compared with the real code and judged by the MRO-remainder oracle on every query); "
+                               "formal equivalence ZI.World.superSpec = ZI.C19.superSpec2 (checked by the driver on every super query instead)"])
     rnd = core.rng("C19")
     gen = worldcommon.WorldGen(rnd, tier, PROFILE)
     scripts = [gen.script(i % 2) for i in range({"quick": 70, "thorough": 2000}[tier])]
@@ -79,6 +83,21 @@ def check(tier):
         runner.report_divergences(chk, divs, "world-layer correspondence (ZI.World.superSpec / uLookup vs declarations.py _implementedBy_super, adapter.py); theorems C19_mro_remainder",
                                   "MRO-remainder oracle accepted every super query")
         core.lean_failure_violation(chk)
+    # how many super queries lie inside the guards of C19_super (decided by the driver with the theorem's own WFop19), and the lock-step flags
+    wfl = []
+    for sc in scripts:
+        wfl += list(sc) + ["wf"]
+    try:
+        mo = core.run_model("world", wfl)
+        rows = [x.split() for x in mo if x.startswith("wf ")]
+        chk.counters["histories_wellformed_to_the_end"] = sum(1 for r in rows if r[1] == "true")
+        chk.counters["histories_total"] = len(rows)
+        chk.counters["super_queries_inside_theorem_guards"] = sum(int(r[2]) for r in rows)
+        chk.counters["super_queries_total"] = sum(int(r[3]) for r in rows)
+        chk.counters["shadow_model_disagreements"] = sum(1 for x in mo if "SUPERDIFF2" in x)
+        chk.counters["abstract_spec_disagreements"] = sum(1 for x in mo if "SUPERSPECDIFF" in x)
+    except core.Infra as e:       # pragma: no cover
+        chk.counters["wf_stats_error"] = str(e)[-200:]
     chk.samples.append(scripts[0][:30])
     return chk.finish(len(lines) * 2, chk.counters.get("super_answers_changed_by_later_declarations", 0),
                       "class DAGs of 3-6 classes (diamonds, undeclared mixins), 1-4 instances, every class of each MRO used as C; class declaration calls "
